@@ -24,7 +24,7 @@ RULE = ("settings {127.0.0.1, 0.0.0.0} x free ports x endpoints; inputs: valid G
 ASSUMPTIONS = ["stock asyncio loop, real loopback sockets, real time; verdicts never depend on wall-clock deadlines: a response is awaited to EOF under a 5 s watchdog whose expiry makes the case inconclusive",
                "status codes are demanded only for well-formed requests delivered in one segment"]
 EVAL_COUNTER = "inputs_judged"
-REQUIRED = ["inputs_judged", "probes_ok", "wellformed_checked", "malformed_sent", "status_flips", "port_lifetime_checks", "jobs_completed", "shutdowns_with_lingering_connections", "idle_worker_probes", "probes_while_draining"]
+REQUIRED = ["inputs_judged", "probes_ok", "wellformed_checked", "malformed_sent", "status_flips", "port_lifetime_checks", "jobs_completed", "shutdowns_with_lingering_connections", "idle_worker_probes", "probes_while_draining", "races_in_which_the_consumer_did_fail"]
 CASE_TIMEOUT = 120
 
 
@@ -223,8 +223,47 @@ async def draining_scenario(case, out, stats, fps, incon):
 
     good = b"GET /healthz HTTP/1.1\r\nHost: probe\r\n\r\n"
     loop = asyncio.get_running_loop()
-    for variant in ("limit", "signal", "consumer_failed"):
+    # race:k - the worker's only consumer fails k loop turns after the last completion, a stop request arrives 5 turns after it:
+    # whenever the consumer did fail (it was not cancelled first), the drain phase answers 503
+    # "the consumer has failed" = the worker's consume loop for that queue ended with the exception (not: was cancelled while
+    # the exception was still on its way up through the nested tasks - then the worker never learnt of it)
+    from repid._runner import _Runner
+
+    race_failed = []
+    orig_rc = _Runner._run_consumer
+
+    async def spy_rc(self_, *a, **k):
+        try:
+            return await orig_rc(self_, *a, **k)
+        except asyncio.CancelledError:
+            raise
+        except BaseException:
+            race_failed.append(1)
+            raise
+
+    _Runner._run_consumer = spy_rc
+    try:
+        await _draining_variants(case, out, stats, fps, incon, race_failed)
+    finally:
+        _Runner._run_consumer = orig_rc
+
+
+async def _draining_variants(case, out, stats, fps, incon, race_failed):
+    import signal
+
+    from repid import Connection, Job, Router, Worker
+    from repid.connections.in_memory.consumer import _InMemoryConsumer
+    from repid.connections.in_memory.message_broker import InMemoryMessageBroker
+    from repid.converter import BasicConverter
+    from repid.health_check_server import HealthCheckServerSettings
+    from repid.router import RouterDefaults
+
+    good = b"GET /healthz HTTP/1.1\r\nHost: probe\r\n\r\n"
+    loop = asyncio.get_running_loop()
+    for variant in ["limit", "signal", "consumer_failed"] + [f"race:{k}" for k in range(0, 14)]:
         fail = asyncio.Event()
+        raised = []
+        del race_failed[:]
 
         class FaultyConsumer(_InMemoryConsumer):
             async def consume(self):
@@ -238,6 +277,7 @@ async def draining_scenario(case, out, stats, fps, incon):
                         get.cancel()
                 if get.done() and not get.cancelled():
                     return get.result()
+                raised.append(1)
                 raise RuntimeError("consumer failure (injected)")
 
         class Broker(InMemoryMessageBroker):
@@ -288,10 +328,23 @@ async def draining_scenario(case, out, stats, fps, incon):
                 await asyncio.sleep(0.005)
             else:
                 out.append(V("wrong_status", "draining/flip-not-registered", "the worker's only consumer raised while an actor was executing, but the health status had not become UNHEALTHY 5 s later"))
-        want = 503 if variant == "consumer_failed" else 200
+        elif variant.startswith("race"):
+            async def later(n, fn):
+                for _ in range(n):
+                    await asyncio.sleep(0)
+                fn()
+
+            stop_now = loop._signal_handlers[signal.SIGUSR2]._run  # (what the delivery of the signal runs)
+            t1, t2 = loop.create_task(later(5, stop_now)), loop.create_task(later(int(variant.split(":")[1]), fail.set))
+            await asyncio.gather(t1, t2)
+            await asyncio.sleep(0.2)
+            stats["consumer_failures_raced_against_a_stop_request"] += 1
+            raised = race_failed
+            stats["races_in_which_the_consumer_did_fail"] += len(raised)
+        want = 503 if (variant == "consumer_failed" or (variant.startswith("race") and raised)) else 200
         # consuming winds down within a few loop turns; the slow actor keeps run() in progress for as long as the gate is shut
         seen = collections.Counter()
-        for k in range(12):
+        for k in range(3 if variant.startswith("race") else 12):
             await asyncio.sleep(0.02 if k else 0.15)
             if run_task.done():
                 out.append(V("harness_or_api_error", f"draining/{variant}", f"run() ended while an actor was still executing: {run_task}"))
@@ -306,7 +359,11 @@ async def draining_scenario(case, out, stats, fps, incon):
             seen.pop(200)  # (probes that came in before the failing consume() call was reached)
         if set(seen) != {want}:
             rule = "port_lifetime" if "refused" in seen else "wrong_status"
-            out.append(V(rule, f"draining/{variant}", f"consuming has ended ({variant}) while an actor is still executing inside Worker.run(): 12 probes answered {dict(seen)}, expected {want} every time"))
+            if variant.startswith("race"):
+                out.append(V(rule, "draining/consumer-failed-around-the-stop-request", f"the worker's only consumer raised {variant.split(':')[1]} loop turns after the last completion ({'it did raise' if raised else 'it was cancelled first'}), "
+                                                                                        f"a stop request came 5 turns after it, an actor is still executing: probes answered {dict(seen)}, expected {want}"))
+            else:
+                out.append(V(rule, f"draining/{variant}", f"consuming has ended ({variant}) while an actor is still executing inside Worker.run(): 12 probes answered {dict(seen)}, expected {want} every time"))
         gate.set()
         try:
             await asyncio.wait_for(run_task, 30)
